@@ -460,6 +460,10 @@ _mtbl_decompress_zlib(
 		.zfree		= Z_NULL,
 	};
 
+	/* zlib counts the bytes of the compressed input in 32 bits. */
+	if (input_size > INT_MAX)
+		return (mtbl_res_failure);
+
 	/**
 	 * Initial guess of how large the decompressed output will be.
 	 * A good guess will decrease the amount of looping and reallocation
@@ -480,16 +484,24 @@ _mtbl_decompress_zlib(
 
 	zs.avail_in = input_size;
 	zs.next_in = (uint8_t *) input;
-	zs.avail_out = *output_size;
 	zs.next_out = *output;
 
+	/*
+	 * zlib counts avail_out in 32 bits: hand it the free part of the
+	 * output buffer in pieces it can count, and grow the buffer only
+	 * once that free part is used up.
+	 */
+	size_t output_avail = *output_size;
 	do {
+		uInt piece = (output_avail > UINT_MAX) ? UINT_MAX : (uInt) output_avail;
+		zs.avail_out = piece;
 		zret = inflate(&zs, Z_FINISH);
+		output_avail -= piece - zs.avail_out;
 		assert(zret == Z_STREAM_END || zret == Z_BUF_ERROR);
-		if (zret != Z_STREAM_END) {
+		if (zret != Z_STREAM_END && output_avail == 0) {
 			*output = my_realloc(*output, *output_size * 2);
 			zs.next_out = *output + *output_size;
-			zs.avail_out = *output_size;
+			output_avail = *output_size;
 			*output_size *= 2;
 		}
 	} while (zret != Z_STREAM_END);
